@@ -16,7 +16,7 @@ import Dyce.AffineProofs
 | `P.h(*which)`: IndexError exactly when indexing raises, empty selection → empty histogram, otherwise the brute-force count of `Σ_{j∈idxs} sorted(t)[j] = z` — through the `h() * (i // n)` short-circuit and through roll enumeration alike | `C03_selection` |
 | equivalent selections (same resolved positions) | `C03_equivalent_selections` |
 | permuted / regrouped identifiers (the same positions in another order) | `C03_permuted_selections` |
-| relabelling all faces by an increasing affine map relabels the result by the same map (`a·s + b·m` for `m` selected positions) | `C03_affine_increasing` (the decreasing case — mirrored positions — is not proved) |
+| relabelling all faces by an increasing affine map relabels the result by the same map (`a·s + b·m` for `m` selected positions) | `C03_affine_increasing`; decreasing maps (`a < 0`, mirrored positions `j ↦ n-1-j`): `C03_affine_decreasing` |
 
 The outcome type is any `AddCommMonoid` with a Boolean total order (`Int`, `ℚ`, …).
 -/
